@@ -752,6 +752,32 @@ def faults(tier, seed, ci, nc):
     return _slice(gen(), ci, nc)
 
 
+def preempt(tier, seed, ci, nc):
+    """one preemption of thread A before each of its sigtools lines (quick: the first 900 lines; thorough: the first 6000, i.e. all)"""
+    from . import real_rt
+    stride = 1
+    top = 900 if tier == 'quick' else 6000
+    block = 60
+
+    def gen():
+        for name in real_rt.PREEMPT_SCENARIOS:
+            for off in range(stride):
+                pass
+            for lo in range(1, top, block):
+                yield ('rt:preempt', name, lo, lo + block, stride)
+    return _slice(gen(), ci, nc)
+
+
+def lateattr(tier, seed, ci, nc):
+    def gen():
+        for v in ('as_forged', 'emulate', 'plain'):
+            yield ('rt:lateattr', v)
+    return _slice(gen(), ci, nc)
+
+
+STREAMS.update({'preempt': preempt, 'lateattr': lateattr})
+
+
 def threads_rt(tier, seed, ci, nc):
     def gen():
         yield ('rt:asforged_threads', 'inspect')
@@ -958,7 +984,7 @@ def wrap(tier, seed, ci, nc, count=600):
             own = tuple('%s%d' % (n, i) for n in rng.choice(owns))
             own_list.append(own)
         fps = rng.choice(funcs)
-        placement = rng.choice(['function', 'function_peek', 'method', 'staticmethod'])
+        placement = rng.choice(['function', 'function_peek', 'function_forged', 'method', 'staticmethod'])
         if any(p[1] == 'po' for p in fps) and placement == 'method':
             placement = 'function'
         yield ('rt:wrap', kind, tuple(own_list), fps, placement)
